@@ -164,6 +164,34 @@ def path_model(pre, pc):
     return s.model()
 
 
+def witness_models(pre, pc, env, tier="quick", timeout_ms=5000):
+    """Concrete witnesses of one path: the solver's default model plus boundary-biased
+    ones (every scalar 0 / 1 / -1 where the path allows).  Used to re-run the real
+    code on plain Python values for every explored path (model-fidelity net for
+    code that dispatches on the concrete type of a value)."""
+    s = z3.Solver()
+    s.set("timeout", timeout_ms)
+    for c in list(pre) + list(pc):
+        s.add(c)
+    scalars = [v for v in env.values() if isinstance(v, sym.Sym) and not isinstance(v, sym.SymBool)]
+    biases = [None, 0] if tier == "quick" else [None, 0, 1, -1]
+    seen = set()
+    for b in biases:
+        s.push()
+        if b is not None:
+            for v in scalars:
+                s.add(v.term == b)
+        r = s.check()
+        if r == z3.sat:
+            m = s.model()
+            key = tuple(str(m.eval(v.term, model_completion=True)) for v in env.values()
+                        if isinstance(v, sym.Sym))
+            if key not in seen:
+                seen.add(key)
+                yield m
+        s.pop()
+
+
 def concrete_equal(a, b, truthy=False):
     """Plain-Python comparison used on replay."""
     import numpy as np
